@@ -25,9 +25,10 @@ CLAIMED = {
             "finalisation, squeeze) + differential correspondence (PWLCalibrationConstraints, layer wiring, private stages) + oracle",
             "Theorems (Props/C04.lean), all kernels/sizes/positive spacings/iteration counts: result monotone exactly, within "
             "bounds in every configuration, convex/concave exactly with monotonicity or without bounds, feasible => unchanged, "
-            "imputed missing output in bounds; the finalisation establishes these from ANY input. Clamps: near end proved for "
-            "iterations >= 1; iterations = 0 is known finding F-C04-b with a counter-witness theorem.",
-            "4/C04", "PARTIAL: ClampBothEnds (far-end clamp) is a `def : Prop`, covered by the oracle only. "),
+            "imputed missing output in bounds; the finalisation establishes these from ANY input; clamps are hit exactly at BOTH "
+            "ends for iterations >= 1 without convexity (clamp_hit: Dykstra far-end invariant + mirror argument for decreasing); "
+            "iterations = 0 is known finding F-C04-b with a counter-witness theorem; the driver op is proved to compute projectAll.",
+            "4/C04", "clamp with convexity and convexity+bounds without monotonicity are the property's tolerated relaxations. "),
     "C05": ("Lean 4 theorems (induction over piece lists: sum of clipped ramps = convex combination of cumulative sums) on an "
             "executable model of compute_interpolation_weights / PWLCalibration.call / CategoricalCalibration.call + differential "
             "correspondence of the real Keras layers + np.interp oracle",
